@@ -328,8 +328,13 @@ impl ClientEvent {
     ///
     /// The caller must ensure that `events` is [`Events<E>`], `client_events` is [`Events<FromClient<E>>`]
     /// and this instance was created for `E`.
-    pub(crate) unsafe fn resend_locally(&self, client_events: PtrMut, events: PtrMut) {
-        unsafe { (self.resend_locally)(client_events, events) }
+    pub(crate) unsafe fn resend_locally(
+        &self,
+        client_events: PtrMut,
+        events: PtrMut,
+        reader: PtrMut,
+    ) {
+        unsafe { (self.resend_locally)(client_events, events, reader) }
     }
 
     /// Typed version of [`ClientEvent::resend_locally`].
@@ -337,16 +342,26 @@ impl ClientEvent {
     /// # Safety
     ///
     /// The caller must ensure that `events` is [`Events<E>`] and `server_events` is [`Events<ToClients<E>>`].
-    unsafe fn resend_locally_typed<E: Event>(server_events: PtrMut, events: PtrMut) {
+    unsafe fn resend_locally_typed<E: Event>(
+        server_events: PtrMut,
+        events: PtrMut,
+        reader: PtrMut,
+    ) {
         let client_events: &mut Events<FromClient<E>> = unsafe { server_events.deref_mut() };
         let events: &mut Events<E> = unsafe { events.deref_mut() };
+        let reader: &mut ClientEventReader<E> = unsafe { reader.deref_mut() };
         if !events.is_empty() {
-            debug!(
-                "resending {} event(s) `{}` locally",
-                events.len(),
-                any::type_name::<E>()
-            );
-            client_events.send_batch(events.drain().map(|event| FromClient {
+            // Events already sent to the remote server before a disconnect are still stored
+            // until `Events::update` drops them, they shouldn't be handled a second time locally.
+            let unsent = reader.len(events);
+            let sent = events.len() - unsent;
+            if unsent != 0 {
+                debug!(
+                    "resending {unsent} event(s) `{}` locally",
+                    any::type_name::<E>()
+                );
+            }
+            client_events.send_batch(events.drain().skip(sent).map(|event| FromClient {
                 client: SERVER,
                 event,
             }));
@@ -431,7 +446,7 @@ type SendFn = unsafe fn(&ClientEvent, &mut ClientSendCtx, &Ptr, PtrMut, &mut Rep
 type ReceiveFn = unsafe fn(&ClientEvent, &mut ServerReceiveCtx, PtrMut, &mut RepliconServer);
 
 /// Signature of client event resending functions.
-type ResendLocallyFn = unsafe fn(PtrMut, PtrMut);
+type ResendLocallyFn = unsafe fn(PtrMut, PtrMut, PtrMut);
 
 /// Signature of client event reset functions.
 type ResetFn = unsafe fn(PtrMut);
